@@ -1,6 +1,9 @@
 package main
 
 import (
+	"crypto/sha256"
+	"encoding/hex"
+	"encoding/json"
 	"flag"
 	"fmt"
 	"os"
@@ -45,6 +48,32 @@ type runOpts struct {
 	all      bool
 	workers  int
 	verbose  bool
+	noRetry  bool
+	cacheDir string // content-addressed cache of discharged queries (key: SHA-256 of the full query text)
+}
+
+// The cache maps the hash of a complete SMT query to the fact that a back end answered unsat for
+// exactly that text. The text is generated from the current tree on every run, so an entry can never
+// be stale: a changed function, contract or axiom produces a different query. Only unsat is cached.
+func cacheLookup(dir, query string) (solveResult, bool) {
+	sum := sha256.Sum256([]byte(query))
+	data, err := os.ReadFile(filepath.Join(dir, hex.EncodeToString(sum[:])))
+	if err != nil {
+		return solveResult{}, false
+	}
+	f := strings.Fields(string(data))
+	if len(f) < 3 || f[0] != "unsat" {
+		return solveResult{}, false
+	}
+	var secs float64
+	fmt.Sscan(f[2], &secs)
+	return solveResult{Answer: "unsat", Backend: f[1], TimeS: secs, Cached: true, All: map[string]string{f[1]: "unsat"}}, true
+}
+
+func cacheStore(dir, query string, r solveResult) {
+	sum := sha256.Sum256([]byte(query))
+	os.MkdirAll(dir, 0o755)
+	os.WriteFile(filepath.Join(dir, hex.EncodeToString(sum[:])), []byte(fmt.Sprintf("unsat %s %.3f\n", r.Backend, r.TimeS)), 0o644)
 }
 
 // discharge runs every obligation of the given VCs through the solver race.
@@ -78,6 +107,12 @@ func discharge(vcs []*VC, opt runOpts) {
 				}
 				q := j.vc.query(j.o)
 				var r solveResult
+				if opt.cacheDir != "" && j.o.Expect == "" && !opt.all {
+					if cr, ok := cacheLookup(opt.cacheDir, q); ok {
+						j.o.Result = &cr
+						continue
+					}
+				}
 				staged := false
 				if !opt.all && j.o.Expect != "fail" {
 					// stage 1: the back end that decides most obligations, alone and briefly;
@@ -88,7 +123,7 @@ func discharge(vcs []*VC, opt runOpts) {
 				if !staged {
 					r = raceSolve(opt.scratch, j.o.Name, q, t, opt.all && j.o.Expect != "fail")
 				}
-				if r.Answer != "unsat" && r.Answer != "sat" && j.o.Expect == "" {
+				if r.Answer != "unsat" && r.Answer != "sat" && j.o.Expect == "" && !opt.noRetry {
 					// one retry with a doubled budget (DESIGN 7, alarm hygiene)
 					r2 := raceSolve(opt.scratch, j.o.Name+".retry", q, 2*t, false)
 					if r2.Answer == "unsat" || r2.Answer == "sat" {
@@ -96,6 +131,9 @@ func discharge(vcs []*VC, opt runOpts) {
 					}
 				}
 				j.o.Result = &r
+				if opt.cacheDir != "" && r.Answer == "unsat" && j.o.Expect == "" {
+					cacheStore(opt.cacheDir, q, r)
+				}
 			}
 		}()
 	}
@@ -130,6 +168,8 @@ func main() {
 		cmdList(os.Args[2:])
 	case "selftest":
 		cmdSelftest(os.Args[2:])
+	case "replay":
+		cmdReplay(os.Args[2:])
 	default:
 		fmt.Fprintln(os.Stderr, "unknown command", os.Args[1])
 		os.Exit(2)
@@ -173,6 +213,9 @@ func cmdVerify(args []string) {
 	only := fs.String("only", "", "substring filter on obligation names")
 	mutant := fs.String("mutant", "", "verify the tree with this patch applied (through an overlay; /repo is not touched)")
 	carved := fs.Bool("carved", false, "assume the carve-outs of known findings")
+	fast := fs.Bool("fast", false, "no retry of undischarged obligations (for contract development)")
+	workers := fs.Int("workers", 8, "")
+	cache := fs.String("cache", "", "directory of the content-addressed query cache")
 	fs.Parse(args)
 	start := time.Now()
 	var overlay map[string][]byte
@@ -211,6 +254,21 @@ func cmdVerify(args []string) {
 	var vcs []*VC
 	bad := 0
 	for _, k := range keys {
+		if strings.HasPrefix(k, "lemma:") {
+			vc := lemmaByKey(env, k)
+			if vc == nil {
+				fmt.Printf("BINDING FAILURE: no lemma %s\n", k)
+				bad++
+				continue
+			}
+			if err := vc.generateLemma(); err != nil {
+				fmt.Printf("GENERATION FAILED: %v\n", err)
+				bad++
+				continue
+			}
+			vcs = append(vcs, vc)
+			continue
+		}
 		d := env.funcC[k]
 		if d == nil {
 			fmt.Printf("no contract for %s\n", k)
@@ -241,7 +299,7 @@ func cmdVerify(args []string) {
 		}
 		vcs = append(vcs, vc)
 	}
-	discharge(vcs, runOpts{scratch: scratch, timeoutS: *timeout, all: *all, workers: 6, verbose: *verbose})
+	discharge(vcs, runOpts{scratch: scratch, timeoutS: *timeout, all: *all, workers: *workers, verbose: *verbose, noRetry: *fast, cacheDir: *cache})
 	total, okN := 0, 0
 	for _, vc := range vcs {
 		for _, o := range vc.obls {
@@ -318,6 +376,15 @@ func overlayFromPatch(repo, patch string) (map[string][]byte, error) {
 	return ov, nil
 }
 
+func lemmaByKey(env *Env, key string) *VC {
+	for _, d := range env.lemmas {
+		if "lemma:"+d.Pkg+"."+d.Name == key {
+			return newLemmaVC(env, d)
+		}
+	}
+	return nil
+}
+
 func hasClause(d *Decl, kind string) bool {
 	for _, c := range d.Clauses {
 		if c.Kind == kind {
@@ -328,4 +395,33 @@ func hasClause(d *Decl, kind string) bool {
 }
 
 
-func cmdSelftest(args []string) { fmt.Println("not yet"); os.Exit(2) }
+func cmdSelftest(args []string) { fmt.Println("use bin/selftest"); os.Exit(2) }
+
+// cmdReplay re-checks the obligation recorded in a replay file against the current tree.
+func cmdReplay(args []string) {
+	if len(args) < 1 {
+		fmt.Fprintln(os.Stderr, "usage: govc replay <replay file>")
+		os.Exit(2)
+	}
+	data, err := os.ReadFile(args[0])
+	if err != nil {
+		fmt.Fprintln(os.Stderr, err)
+		os.Exit(2)
+	}
+	var rp map[string]any
+	if err := json.Unmarshal(data, &rp); err != nil {
+		fmt.Fprintln(os.Stderr, err)
+		os.Exit(2)
+	}
+	prop, _ := rp["property"].(string)
+	obl, _ := rp["obligation"].(string)
+	fmt.Printf("replaying %s of %s on the current tree\n", obl, prop)
+	if rc, ok := rp["replay_cmd"].(string); ok && rc != "" {
+		fmt.Println("concrete replay:", rc)
+		cmd := exec.Command("sh", "-c", rc)
+		cmd.Stdout, cmd.Stderr = os.Stdout, os.Stderr
+		cmd.Run()
+	}
+	os.Setenv("GOVC_ONLY_OBLIGATION", obl)
+	os.Exit(runCheck("/repo", "/verif", prop, "quick", 0, "", false))
+}
